@@ -36,6 +36,10 @@ IndexClassification::IndexClassification ( const Lattice::SiteMap &Sites ) : Ind
 
 void IndexClassification::prepare(bool order_spins)
 {
+    // A repeated call starts from scratch (IndexSize is accumulated below).
+    IndexSize=0;
+    InfoToIndices.clear();
+    IndicesToInfo.clear();
     unsigned int MaxSpinSize=0;
     for (Lattice::SiteMap::const_iterator it1 = Sites.begin(); it1!=Sites.end();++it1) { // first run : determine IndexSpace size & calculate number of spins on each site.
         IndexSize+= (*(it1->second)).OrbitalSize*(*(it1->second)).SpinSize;
